@@ -79,7 +79,33 @@ def file_inputs(rng, count):
             ftxt = pf.corrupt_file(rng, ftxt) if rng.random() < 0.7 else pf.soup(rng)
             tag = "corrupt_factors"
         out.append((txt, ftxt, tag))
+    # one value more or one value fewer on each line in turn of a file that has every kind of line (a multi-service system with
+    # auxiliary and output energy, DHW demand, cogeneration, on-site production): every length check the reader skips is a
+    # length assertion waiting further down
+    for li in range(len(LENGTH_BASE)):
+        for how in ("short", "long", "single"):
+            lines = list(LENGTH_BASE)
+            head, vals = lines[li].rsplit(", ", 3)[0], lines[li].rsplit(", ", 3)[1:]
+            vals = vals[:-1] if how == "short" else vals + ["7.5"] if how == "long" else vals[:1]
+            lines[li] = ", ".join([head] + vals)
+            out.append(("\n".join(lines) + "\n", None, "one_line_of_another_length"))
     return out
+
+
+LENGTH_BASE = [
+    "1, CONSUMO, CAL, GASNATURAL, 10.0, 10.0, 10.0",
+    "1, CONSUMO, ACS, GASNATURAL, 5.0, 5.0, 5.0",
+    "1, AUX, 1.0, 1.0, 1.0",
+    "1, SALIDA, CAL, 27.0, 9.0, 9.0",
+    "1, SALIDA, ACS, 13.0, 4.0, 4.0",
+    "2, CONSUMO, REF, ELECTRICIDAD, 20.0, 30.0, 40.0",
+    "2, PRODUCCION, EL_INSITU, 15.0, 35.0, 20.0",
+    "3, CONSUMO, COGEN, GASNATURAL, 30.0, 30.0, 30.0",
+    "3, PRODUCCION, EL_COGEN, 12.0, 12.0, 12.0",
+    "4, CONSUMO, ACS, EAMBIENTE, 8.0, 8.0, 8.0",
+    "4, PRODUCCION, EAMBIENTE, 4.0, 9.0, 8.0",
+    "DEMANDA, ACS, 20.0, 20.0, 20.0",
+]
 
 
 def run(tier, seed):
@@ -216,6 +242,10 @@ def run(tier, seed):
             R.harness_errors.append("unparsable verdict for %s: %s" % (cid, t[:120]))
         elif v[0]:
             R.cases_validated += 1
+        elif v[1] == "non-finite value" and isinstance(impl[cid], dict) and "panic" not in impl[cid]:
+            # the text holds a number that f32 reads as inf / NaN (e.g. 1e39): outside the rational model, which stops there, while the
+            # code goes on and may accept the file or refuse it for another reason; panic-freedom was checked above, nothing to compare
+            stats["outside_the_model_non_finite_number"] += 1
         else:
             R.broken.append(("correspondence Model.Parse.%s vs implementation" % ("parse_components" if cid.endswith(".c") else "parse_factors"),
                              {"text": texts[cid], "implementation": json.dumps(impl[cid], ensure_ascii=False)[:400], "model_outcome": v[1]}))
